@@ -13,7 +13,7 @@
    rewrite relation; the skip and squash lemmas by induction on the input), no axioms. *)
 From Coq Require Import List NArith.
 Import ListNotations.
-From PP Require Import Base Syntax Spec SpecSyn SpecMono SpecLaws SpecEquiv Opt OptProof OptSkip Interp InterpProof Gen GenProof OptPass OptPassProof OptPassInline OptPassCompose.
+From PP Require Import Base Syntax Spec SpecSyn SpecMono SpecLaws SpecEquiv Opt OptProof OptSkip Interp InterpProof Gen GenProof OptPass OptPassProof OptPassInline OptPassCompose OptPassIdem.
 
 (* `req`: same constructor; on success the same tree and the same final position, stack and tags;
    failure with failure; undefined rule with undefined rule *)
@@ -140,6 +140,10 @@ Theorem C02_unroll_pass_preserves_meaning : forall bi g,
        exists f', req (parse g f' rule input k) r).
 Proof. exact pass_unroll_sound. Qed.
 
+(* repeating the unroll pass changes nothing more: its image contains none of the operators it rewrites *)
+Theorem C02_unroll_pass_idempotent : forall bi g, pass_unroll bi (pass_unroll bi g) = pass_unroll bi g.
+Proof. exact pass_unroll_idempotent. Qed.
+
 (* ---- the inline_builtin PASS itself: map_top_down (the node first, then the children of the RESULT, so
    built-ins nested in the body of a built-in are inlined too; fuel, None when exhausted) with
    inliners.inline_builtin. Whenever the model returns a table (it always does within the fuel the driver gives
@@ -241,6 +245,7 @@ Qed.
 
 Print Assumptions C02_validated_optimization_preserves_meaning.
 Print Assumptions C02_modelled_passes_compose.
+Print Assumptions C02_unroll_pass_idempotent.
 Print Assumptions C02_inline_builtin_pass_output_is_validated.
 Print Assumptions C02_inline_builtin_pass_preserves_meaning.
 Print Assumptions C02_unroll_pass_output_is_validated.
